@@ -146,6 +146,13 @@ func TestC08(t *testing.T) {
 				cases = append(cases, bn.KwFun+" f(\n"+strings.ReplaceAll(params(n), ",\n", "\n, ")+"\n) { }\n")
 				cases = append(cases, bn.KwFun+" f("+strings.ReplaceAll(params(n), "\n", " ")+") { }\n"+bn.KwPrint+" 1;")
 			}
+			// behind the comma that follows the 255th parameter nothing can stand: whatever comes on the next line — another
+			// name, a bracket, a number, a keyword, nothing — the comma is where the text stops being a program
+			for _, n := range []int{254, 255, 256} {
+				for _, next := range []string{"q", ")", ") { }", "{", "1", bn.KwVar, ",", "", "\"s\"", "q, r) { }"} {
+					cases = append(cases, bn.KwPrint+" 1;\n"+bn.KwFun+" f("+strings.ReplaceAll(params(n), "\n", " ")+",\n"+next+"\n"+bn.KwPrint+" 2;\n")
+				}
+			}
 			args := make([]string, 1000)
 			for i := range args {
 				args[i] = fmt.Sprint(i)
